@@ -31,6 +31,29 @@ def _load_baseline():
 
 
 _BASELINE = _load_baseline()
+
+
+def _load_hashes():
+    import json
+    try:
+        return json.load(open(os.path.join(os.path.dirname(os.path.dirname(os.path.abspath(__file__))), 'contracts', 'baseline_hashes.json')))['functions']
+    except Exception:
+        return {}
+
+
+_HASHES = _load_hashes()
+
+
+def _unchanged(ex):
+    """is the extracted function textually the one of the tree the contracts were written against? (unknown -> treated as
+    unchanged, so that the vacuity guard stays a guard)"""
+    known = _HASHES.get(ex.relpath, {}).get(ex.qualpath.split('.<lambda')[0])
+    if known is None and ex.alias_of:
+        q = ex.qualpath.rsplit('.', 1)[0] + '.' + ex.alias_of if '.' in ex.qualpath else ex.alias_of
+        known = _HASHES.get(ex.relpath, {}).get(q)
+    if not known:
+        return True
+    return ex.sha256 in known
 _SAFE_STDLIB = {'itertools', 'math', 'operator', 'functools', 'string', 'fractions', 'bisect'}
 
 
@@ -184,7 +207,14 @@ class Harness:
         all_unexpected = results and all(r.outcome == 'oos' or (r.outcome == 'raise' and 'expected-raise' not in r.ctx.notes) for r in results)
         if not any(r.ctx.obligations for r in results) and not all_unexpected:
             why = '; '.join(sorted({f'{type(r.value).__name__}: {r.value}'[:160] for r in results if r.outcome == 'raise'}))
-            self.vacuous.append(base + (f' [every path raised: {why}]' if why else ''))
+            if _unchanged(fuc.ex):
+                # no obligation at all from a function that is exactly the one the contract was written for: a fault of the checker
+                self.vacuous.append(base + (f' [every path raised: {why}]' if why else ''))
+            else:
+                # the function differs from the recorded tree and its contract finds nothing to say about it: it does not apply
+                msg = 'the contract produced no obligation on this (changed) function: it does not apply' + (f' [{why}]' if why else '')
+                fuc.out_of_subset = msg
+                self.out_of_subset.append((base, msg))
         for pi, r in enumerate(results):
             for o in r.ctx.obligations:
                 self.add_obligation(f'{base}/{o.name}#p{pi}', o, fuc)
